@@ -271,6 +271,13 @@ def bit_worker(item):
     from tally.modifier_parser import check_all_conditions
     rnd = random.Random(seed)
     txns = LD.txns()
+    # amounts exactly one cent away from an [amount=N] threshold: whether "within a cent" includes them is decided by binary
+    # floating point (10.01 - 10 < 0.01, 100.01 - 100 > 0.01) - the rational model has no opinion there, but whatever the CSV
+    # rule says, the migrated rule must say the same
+    EXACT = [5.0, 9.99, 10.0, 12.5, 15.0, 50.0, 200.0, 1500.0, 20.0, 99.0]
+    for n_ in EXACT:
+        for a_ in (round(n_ - 0.01, 2), n_, round(n_ + 0.01, 2)):
+            txns.append({'description': LD.DESCS[0], 'amount': a_, 'date': datetime.date(2025, 1, 15)})
     fails = []
     done = 0
     d = tempfile.mkdtemp(prefix='c14b_', dir='/dev/shm' if os.path.isdir('/dev/shm') else None)
@@ -286,6 +293,9 @@ def bit_worker(item):
             except re.error:
                 continue
             mods = rnd.choice(LD.MODS)[0]
+            if k % 4 == 0:
+                mods = '[amount=%s]' % rnd.choice(['5', '9.99', '10', '10.00', '12.5', '15', '50.00', '200', '1500', '20', '99']) + rnd.choice(['', '', '[month=1]'])
+                pat = rnd.choice(['ALFA', 'ALFA STORE', 'A.FA'])
             rule = {'pattern': pat, 'mods_text': mods, 'merchant': rnd.choice(['M One', 'Joe\'s', 'A&B', 'X]Y', 'Name, Inc']), 'cat': 'Food', 'sub': rnd.choice(['', 'Sub']),
                     'tags': rnd.choice([[], ['t1'], ['T1', 'two words']]), 'relative': 'last' in mods}
             text = csv_text([rule])
